@@ -1,2 +1,54 @@
 import BacVerif.Props.C18
-#print axioms BacVerif.C18.placeholder
+-- parse_fields
+#print axioms BacVerif.C18.parse_fields_star
+#print axioms BacVerif.C18.parse_fields_global
+#print axioms BacVerif.C18.parse_fields_station
+#print axioms BacVerif.C18.parse_fields_net_station
+#print axioms BacVerif.C18.parse_fields_net_broadcast
+#print axioms BacVerif.C18.parse_fields_hex
+#print axioms BacVerif.C18.parse_fields_net_hex
+#print axioms BacVerif.C18.parse_fields_xhex
+#print axioms BacVerif.C18.parse_fields_net_xhex
+#print axioms BacVerif.C18.parse_fields_ip
+#print axioms BacVerif.C18.parse_fields_net_ip
+#print axioms BacVerif.C18.atonPart_decimal
+#print axioms BacVerif.C18.fields_int
+#print axioms BacVerif.C18.fields_bytes
+#print axioms BacVerif.C18.fields_tuple_int
+#print axioms BacVerif.C18.fields_tuple_str
+#print axioms BacVerif.C18.fields_ctor2
+#print axioms BacVerif.C18.fields_typed
+-- IP arithmetic
+#print axioms BacVerif.C18.ip_arith
+#print axioms BacVerif.C18.ip_values
+#print axioms BacVerif.C18.quad_lt
+-- range_refused
+#print axioms BacVerif.C18.range_refused_station
+#print axioms BacVerif.C18.range_refused_net
+#print axioms BacVerif.C18.range_refused_net_station
+#print axioms BacVerif.C18.range_refused_mask
+#print axioms BacVerif.C18.range_refused_mask_text
+#print axioms BacVerif.C18.range_refused_port
+#print axioms BacVerif.C18.range_refused_int
+#print axioms BacVerif.C18.range_refused_ctor
+#print axioms BacVerif.C18.range_refused_tuple_port
+#print axioms BacVerif.C18.star_net_refused
+#print axioms BacVerif.C18.parse_wf
+#print axioms BacVerif.C18.parse_net_range
+-- print / parse
+#print axioms BacVerif.C18.printStation_text
+#print axioms BacVerif.C18.print_parse
+#print axioms BacVerif.C18.parse_print_parse
+-- scanner / printer lemmas the above rest on
+#print axioms BacVerif.Addr.printDec_spec
+#print axioms BacVerif.Addr.digits_printDec
+#print axioms BacVerif.Addr.atonPart_printDec
+#print axioms BacVerif.Addr.hexBytes_hexOf
+-- equality / hash
+#print axioms BacVerif.C18.eq_iff_key
+#print axioms BacVerif.C18.eq_refl
+#print axioms BacVerif.C18.eq_symm
+#print axioms BacVerif.C18.eq_trans
+#print axioms BacVerif.C18.eq_hash
+#print axioms BacVerif.C18.hash_eq
+#print axioms BacVerif.C18.eq_fields
